@@ -1,11 +1,11 @@
 #!/usr/bin/env bash
-# Re-run every seeded change against the quick tier of the checks its meta.json lists under caught_by.
+# Re-run every seeded change against the quick tier of the check of ITS OWN property (ALL_CHECKS=1: of every check its meta.json lists under caught_by).
 # Applies each patch to /repo, runs the checks, reverts. Prints one line per (change, check).
 set -u
 cd /verif
 for d in seeded/*/; do
   n=$(basename $d)
-  ids=$(python3 -c "import json;print(' '.join(sorted({k.split()[0] for k in json.load(open('$d/meta.json'))['caught_by']})))")
+  if [ "${ALL_CHECKS:-}" = 1 ]; then ids=$(python3 -c "import json;print(' '.join(sorted({k.split()[0] for k in json.load(open('$d/meta.json'))['caught_by']})))"); else ids=$(python3 -c "import json;print(json.load(open('$d/meta.json'))['property'])"); fi
   echo "### $n -> $ids"
   SKIP_REBUILD=1 tools/run_mutant.sh /verif/$d/patch.diff quick $ids 2>&1 | grep "^== " 
 done
